@@ -11,9 +11,11 @@ import (
 	"os"
 	"path/filepath"
 	"regexp"
+	"runtime/debug"
 	"sort"
 	"strconv"
 	"strings"
+	"sync"
 	"time"
 
 	"layeh.com/radius/dictionary"
@@ -25,7 +27,10 @@ func init() {
 
 func evalC15(op string, args []string) string {
 	if op == "walkfs" {
-		return evalC15FS(args)
+		return evalC15FS(args, false)
+	}
+	if op == "walkfsdir" {
+		return evalC15FS(args, true)
 	}
 	if op == "walkio" {
 		return evalC15IO(args)
@@ -144,10 +149,32 @@ func (o *fsOpener) OpenFile(name string) (dictionary.File, error) {
 
 var simpleName = regexp.MustCompile(`^[A-Za-z0-9_][A-Za-z0-9_.-]*$`)
 
-func evalC15FS(args []string) string {
+// openFds lists the descriptors of this process (Linux); nil if /proc is not there
+func openFds() map[string]bool {
+	ents, err := os.ReadDir("/proc/self/fd")
+	if err != nil {
+		return nil
+	}
+	m := map[string]bool{}
+	for _, e := range ents {
+		m[e.Name()] = true
+	}
+	return m
+}
+
+var fdMu sync.Mutex
+
+// withDirs: entries are `name:text:flags` (the walkio syntax); flag 1 with an empty text makes the entry a
+// DIRECTORY (the only flags allowed here), which FileSystemOpener opens and whose first Read fails
+func evalC15FS(args []string, withDirs bool) string {
 	if len(args) != 3 || args[2] != "0" && args[2] != "1" || args[0] == "" || args[0] == "-" {
 		return "BAD-CASE"
 	}
+	// descriptors are counted around the call: one case at a time, finalizers (which would close a forgotten
+	// *os.File sooner or later) held off
+	fdMu.Lock()
+	defer fdMu.Unlock()
+	defer debug.SetGCPercent(debug.SetGCPercent(-1))
 	dir, err := os.MkdirTemp("", "vh-c15-")
 	if err != nil {
 		return "HARNESS-tmpdir"
@@ -171,6 +198,21 @@ func evalC15FS(args []string) string {
 	}
 	for _, e := range strings.Split(args[0], ",") {
 		f := strings.Split(e, ":")
+		if withDirs && len(f) == 3 {
+			switch {
+			case f[2] == "0":
+			case f[2] == "1" && f[1] == "-":
+				name := string(unhx(f[0]))
+				if !simpleName.MatchString(name) || name == "sub" {
+					return "BAD-CASE"
+				}
+				os.Mkdir(filepath.Join(dir, name), 0o755) // (an existing file of that name wins, as everywhere)
+				continue
+			default:
+				return "BAD-CASE"
+			}
+			f = f[:2]
+		}
 		if len(f) != 2 {
 			return "BAD-CASE"
 		}
@@ -195,13 +237,26 @@ func evalC15FS(args []string) string {
 	}
 	o := &fsOpener{inner: &dictionary.FileSystemOpener{Root: dir}, dir: dir}
 	p := dictionary.Parser{Opener: o, IgnoreIdenticalAttributes: args[2] == "1"}
+	before := openFds()
 	d, err := p.ParseFile(root)
+	left := 0
+	for fd := range openFds() {
+		if !before[fd] {
+			left++
+		}
+	}
 	trace := "-"
 	if len(o.events) > 0 {
 		trace = strings.Join(o.events, ",")
 	}
+	trace += " fds=" + itoa(left)
 	if err != nil {
 		f := dpClassify(err)
+		var pathErr *os.PathError
+		if _, isPE := err.(*dictionary.ParseError); withDirs && !isPE && errors.As(err, &pathErr) && pathErr.Op == "read" {
+			// the reader's own error, returned as it is (Read on a directory)
+			f = dpFailure{class: "Read"}
+		}
 		file, detail := "-", "-"
 		if f.hasFile {
 			file = hx([]byte(o.plain(f.file)))
@@ -454,6 +509,19 @@ func genC15(g *Gen, tier string, emit func(op string, args ...string)) {
 			}
 			if ok && len(fs.names) > 0 {
 				emit("walkfs", fs.arg(), hx([]byte(root)), ign)
+				// … and once more with one of the files replaced by a DIRECTORY of that name (opens, cannot be read)
+				if nwalk%8 == 0 {
+					dir := (nwalk / 8) % len(fs.names)
+					parts := make([]string, len(fs.names))
+					for i := range fs.names {
+						if i == dir {
+							parts[i] = hx([]byte(fs.names[i])) + ":-:1"
+						} else {
+							parts[i] = hx([]byte(fs.names[i])) + ":" + hx(fs.texts[i]) + ":0"
+						}
+					}
+					emit("walkfsdir", strings.Join(parts, ","), hx([]byte(root)), ign)
+				}
 			}
 		}
 	}
